@@ -281,8 +281,28 @@ class FormDataParser:
         ):
             raise RequestEntityTooLarge()
 
+        # Read until the stream reports its end. A stream limited by
+        # max_content_length raises on the read after the limit was reached.
+        # Apply max_form_memory_size to what is read, not only to the
+        # declared length, which may be absent.
+        data = bytearray()
+
+        while True:
+            chunk = stream.read(64 * 1024)
+
+            if not chunk:
+                break
+
+            data += chunk
+
+            if (
+                self.max_form_memory_size is not None
+                and len(data) > self.max_form_memory_size
+            ):
+                raise RequestEntityTooLarge()
+
         items = parse_qsl(
-            stream.read().decode(),
+            bytes(data).decode(),
             keep_blank_values=True,
             errors="werkzeug.url_quote",
         )
